@@ -76,6 +76,17 @@ CHUNKS = {
     # change the text after the first fix-point loop, so that the second loop runs
     "assign_return": "def compute(a):\n    result = a + 7000\n    return result\n",
     "late_const": "def pick(k):\n    if k == 1:\n        return 'a fairly long repeated text'\n    if k == 2:\n        return 'a fairly long repeated text'\n    if k == 3:\n        return 'a fairly long repeated text'\n    if k == 4:\n        return 'a fairly long repeated text'\n    return 'a fairly long repeated text' * k\n",
+    # names whose only top-level assignment statement is augmented / annotated / a tuple target / chained, and that
+    # nothing reads (first bound by a loop, a global statement in a helper, a star import)
+    "aug_only_loop": "for attempt in range(3):\n    pass\nattempt += 7000\n",
+    "aug_only_global": "def _init():\n    global RETRIES\n    RETRIES = 3\n\n\n_init()\nRETRIES += 7000\n",
+    "aug_only_star": "from os.path import *\nsep += '7000'\n",
+    "ann_only": "timeout: float = 7000\nunset_name: int\n",
+    "tuple_only": "(left, right), rest = (7000, 7001), 2\n[first_item, *others] = [1, 2, 3]\n",
+    "walrus_top": "(walrus_name := 7000)\n",
+    "with_for_targets": "import io\nwith io.StringIO() as handle:\n    inside_with = 7000\nfor loop_name in (1, 2):\n    inside_loop = loop_name\n",
+    "if_try_blocks": "import sys\nif sys.argv:\n    in_if = 7000\nelse:\n    in_else = 7001\ntry:\n    in_try = 1\nexcept Exception:\n    in_except = 2\nfinally:\n    in_finally = 3\n",
+    "class_aug_attr": "class Acc:\n    total = 0\n    total += 7000\n    ratio: float = 0.5\n    first, second = 1, 2\n",
     "const_repeat": "A1 = 'some repeated text'\nA2 = 'some repeated text'\nA3 = 'some repeated text'\nA4 = 'some repeated text'\nA5 = 'some repeated text'\n",
 }
 
